@@ -12,9 +12,10 @@ def spec(tier, seed):
         jobs.append(Job("h263", g.gsize_name(rw, rh, nw, nh), 1200, group="callee: gather", params={"reference": "%dx%d" % (rw, rh), "new": "%dx%d" % (nw, nh)}))
     generated["h263/src/decoder/cpu/gather.rs"] = gen_g
     gen_i = ""
-    for (w_, h_) in (g.idct_sizes() if tier == "thorough" else g.idct_sizes()[:3]):
+    for (w_, h_) in (g.idct_sizes() if tier == "thorough" else [(5, 3), (17, 9)]):
         gen_i += g.idct_inst("contract", w_, h_)
-        jobs.append(Job("h263", g.idct_name("contract", w_, h_), 1200, group="callee: idct_channel", params={"plane": "%dx%d" % (w_, h_)}))
+        for (nm, b_, v_) in g.idct_contract_instances(w_, h_):
+            jobs.append(Job("h263", nm, 1200, tagged=True, group="callee: idct_channel", params={"plane": "%dx%d" % (w_, h_), "block": b_, "variant": ["", "Dc", "Horiz", "Vert", "Full"][v_]}))
     generated["h263/src/decoder/cpu/idct.rs"] = gen_i
     jobs.append(Job("h263", "c11_dequant_1_event", 900, group="callee: inverse_rle"))
     from vf.props import c01_parser
